@@ -52,6 +52,14 @@ func RunC10(s *kernel.Sim) *World {
 	s.SetFree(false)
 
 	pool := w.DrawNames(t.Range(1, 5))
+	if t.Bool(1, 8) {
+		// a program that declares a great many secrets
+		nb := []int{31, 32, 33, 40, 64, 65, 100}[t.Choice(7)]
+		for i := 0; i < nb; i++ {
+			pool = append(pool, fmt.Sprintf("bulk/%03d", i))
+		}
+		s.Fault("many-declared-secrets")
+	}
 	var declared []string
 	for _, n := range pool {
 		declared = append(declared, n)
